@@ -660,10 +660,14 @@ spifconf_shell_expand(spif_charptr_t s)
                     case '{':
                         for (pbuff++, k = 0; *pbuff != '}' && k < 127; k++, pbuff++)
                             EnvVar[k] = *pbuff;
+                        if (*pbuff == '}')
+                            pbuff++;
                         break;
                     case '(':
                         for (pbuff++, k = 0; *pbuff != ')' && k < 127; k++, pbuff++)
                             EnvVar[k] = *pbuff;
+                        if (*pbuff == ')')
+                            pbuff++;
                         break;
                     default:
                         for (k = 0; (isalnum(*pbuff) || *pbuff == '_') && k < 127; k++, pbuff++)
